@@ -61,6 +61,10 @@ scen('two-levels', lambda o: SUB + mk.class_src('Mid', ['s = Ref(Sub)', 'm = Int
      [b'\x00\x01A\x05\x00', b'\x01B\x00\x06\x01C', b'\x00\x00\x00\x00'], [{}])
 scen('default-list', lambda o: PT + mk.class_src('K', ['l = Int(1).repeated(2, default=[7, 8])', 'm = Ref(Pt).repeated(1, default=[Pt(x=4)])', 'z = Int(1)'], o),
      [b'\x01\x02\x03\x04\x05', b'\x00\x00\x00\x00\x00', b'\x09\x09\x01\x01\x01'], [{}, {'z': 3}])
+BAG = mk.class_src('Bag', ['num = Int(1)', 'objects = Int(1).repeated(num)'])
+BOX = BAG + mk.class_src('Box', ['bags = Ref(Bag).repeated(until=lambda pkt, **k: pkt.bags[-1].num == 0)', 'tag = Ref(Bag)'])
+scen('default-nested', lambda o: BOX + mk.class_src('K', ['boxes = Ref(Box).repeated(2, default=[Box(bags=[Bag()]), Box(bags=[Bag(num=1, objects=[5]), Bag()])])', 'z = Int(1)'], o),
+     [b'\x00\x00\x01\x07\x00\x00\x09', b'\x01\x02\x00\x00\x00\x00\x08', b'\x00\x00\x00\x00\x01'], [{}, {'z': 3}])
 scen('shared-proto', lambda o: PT + 'proto = Pt(x=5)\n' + mk.class_src('K', ['a = Ref(proto)', 'z = Int(1)'], o) + mk.class_src('K2', ['h = Int(1)', 'a = Ref(proto)', 'b = Ref(Pt)'], o),
      [b'\x01\x02\x03', b'\x00\x00\x00', b'\x09\x08\x07'], [{}, {'z': 1}])
 scen('expr', lambda o: mk.class_src('K', ['p = Int(1)', 'n = Int(1)', 'x = Int(1)', 'd = Data(p + (n + x))', 'l = Int(1).repeated((n * 2) - x, when=(p + n) > x)', 'z = Int(1)'], o),
@@ -131,7 +135,7 @@ def op_alphabet(sc, classes):
             if ci == 0 or ii == 0:
                 ops.append(('unpack', cname, ii))
     for slot in range(3):
-        for what in ('scalar', 'bytes', 'append', 'nested', 'pack'):
+        for what in ('scalar', 'bytes', 'append', 'nested', 'deep', 'pack'):
             ops.append((what, slot))
     return ops
 
@@ -191,6 +195,26 @@ def apply_op(mod, sc, live, op):
         if nm is None:
             return None
         setattr(p, nm, v + b'+')
+        return slot
+    if kind == 'deep':
+        # the innermost mutable object: descend through first list elements / nested packets as far as it goes
+        cur, depth = p, 0
+        while True:
+            nm, v = first_field(cur, lambda v: (isinstance(v, list) and v and isinstance(v[0], Packet)) or isinstance(v, Packet)) if isinstance(cur, Packet) else (None, None)
+            if nm is None:
+                break
+            cur = v[0] if isinstance(v, list) else v
+            depth += 1
+        if depth < 2 or not isinstance(cur, Packet):
+            return None
+        nm, v = first_field(cur, lambda v: isinstance(v, list))
+        if nm is not None:
+            v.append(7)
+            return slot
+        nm, v = first_field(cur, lambda v: isinstance(v, int) and not isinstance(v, bool))
+        if nm is None:
+            return None
+        setattr(cur, nm, (v + 1) % 5)
         return slot
     if kind == 'append':
         nm, v = first_field(p, lambda v: isinstance(v, list))
